@@ -655,6 +655,15 @@ class Check(PropertyCheck):
                             ('subject', {'subjects': ['acme.util']}),
                             ('subject', {'subjects': ['acme.core.Engine', 'acme.util']})]:
             add(dict({'files': acme, 'privacy': [['HIDDEN', 'acme._impl.Hid']], 'mode': mode}, **extra), 'mode_' + mode)
+        # --html-subject naming an object BELOW a hidden ancestor (the object itself is not matched by the privacy rule):
+        # it is not visible, gets no page, and must not be listed
+        add({'files': acme, 'privacy': [['HIDDEN', 'acme.core']], 'mode': 'subject', 'subjects': ['acme.util', 'acme.core.Engine']},
+            'mode_subject_hidden_ancestor')
+        add({'files': acme, 'privacy': [['HIDDEN', 'acme.core']], 'mode': 'subject', 'subjects': ['acme.core']}, 'mode_subject_hidden_ancestor')
+        add({'mods': two, 'privacy': [['HIDDEN', 'two.sub']], 'mode': 'subject', 'subjects': ['two.sub.D', 'one']},
+            'mode_subject_hidden_ancestor')
+        add({'mods': two, 'privacy': [['HIDDEN', 'two.sub.D'], ['PUBLIC', 'two.sub.D.E']], 'mode': 'subject', 'subjects': ['two.sub.D.E']},
+            'mode_subject_hidden_ancestor')
         for mode, extra in [('intersphinx', {}), ('html', {}), ('summary', {}), ('subject', {'subjects': ['two.sub', 'one']}),
                             ('subject', {'subjects': ['two.sub.D.E']})]:
             add(dict({'mods': two, 'privacy': [['HIDDEN', 'one.C.m']], 'mode': mode}, **extra), 'mode_' + mode)
@@ -732,6 +741,10 @@ class Check(PropertyCheck):
             elif x < 0.26 and pickable:
                 c['mode'] = 'subject'
                 c['subjects'] = r.sample(sorted(set(pickable)), min(len(set(pickable)), r.randint(1, 2)))
+                subs = [x for x in c['subjects'] if '.' in x]
+                if subs and r.random() < 0.5:
+                    # hide the package of one chosen sub-module: the subject then lives below a hidden ancestor
+                    c['privacy'] = privacy + [['HIDDEN', subs[0].rsplit('.', 1)[0]]]
             else:
                 c['mode'] = 'intersphinx'
             add(c, 'generated')
